@@ -176,6 +176,8 @@ SENTENCES = [
     "y ~ a ** 2 ** 3 : b * c / d",
     "y ~ f ( x , 'a  b' ) + g ( \"c\td\" )",
     "y ~ f ( x , ' a ' )",
+    "y ~ I ( a < b == c ) + g ( a == b != c , k = a + b * c )", "y ~ I ( a >= b < c <= d )", "y ~ f ( a + 1 > b == c - 2 )", "y ~ { a - b - c } + { a / b * c }",
+    "y ~ f ( a ** b ** c , - a ** b ) : g ( a * b : c )",
 ]
 # chains around a multi-term base: associativity of ** and its precedence against : * / + are only observable here
 for _base in ("( a + b + c )", "( a + b + c + d )"):
@@ -184,6 +186,37 @@ for _base in ("( a + b + c )", "( a + b + c + d )"):
             SENTENCES.append(f"y ~ {_base} {_o1} {_x} {_o2} {_y}")
             SENTENCES.append(f"y ~ {_x} {_o1} {_base} {_o2} {_y}")
 SENTENCES = list(dict.fromkeys(SENTENCES))
+
+
+def stripped_ast(formula):
+    """The parser's AST without Grouping nodes (None if scanning or parsing fails)."""
+    from formulae.scanner import Scanner
+    from formulae.parser import Parser
+
+    def strip(n):
+        name = type(n).__name__
+        if name == "Grouping":
+            return strip(n.expression)
+        if name == "Binary":
+            return ("Binary", n.operator.kind, strip(n.left), strip(n.right))
+        if name == "Unary":
+            return ("Unary", n.operator.kind, strip(n.right))
+        if name == "Call":
+            return ("Call", strip(n.callee), tuple(strip(a) for a in n.args))
+        if name == "Assign":
+            return ("Assign", strip(n.name), strip(n.value))
+        if name == "Variable":
+            return ("Variable", n.name.lexeme, None if n.level is None else strip(n.level))
+        if name == "QuotedName":
+            return ("QuotedName", n.expression.lexeme)
+        if name == "Literal":
+            return ("Literal", repr(n.value), n.lexeme)
+        return (name, repr(n))
+
+    try:
+        return strip(Parser(Scanner(formula).scan(add_intercept=False)).parse())
+    except Exception:
+        return None
 
 
 def low_level(formula, add_intercept=True):
@@ -270,6 +303,15 @@ def check_case(case, acc):
     low_ok = low is not None
     if accepted != low_ok or (accepted and low != key):
         acc.violation("pipeline-agree", "mismatch", case, f"{s!r}: model_description and Scanner/Parser/Resolver disagree")
+    if sentence and parsed and len(toks) <= 14:
+        # grammar level, calls included: the parser's tree (Grouping nodes removed) must be the tree of the fully
+        # parenthesised text - this is where comparison chains and operators inside call arguments are observable
+        a1 = stripped_ast(s)
+        deep = G.deep_paren(G.parse(toks), toks)
+        a2 = stripped_ast(deep)
+        acc.calls += 2
+        if a1 is not None and a1 != a2:
+            acc.violation("ast-of-parenthesised-form", "mismatch", case, f"{s!r} is not parsed like its fully parenthesised form {deep!r}")
     if not sentence:
         if accepted or low_ok:
             acc.case(s, "NONSENTENCE-ACCEPTED", nontrivial=True, sample=False)
